@@ -42,6 +42,26 @@ Examples (C family): the control head `if ( x ) {` starts with a Keyword token, 
 and `) {` after a keyword are no false headers; the call statement `g ( x ) ;` is none (the run
 stops in front of `;`); `g ( x ) { … }` as a token run followed by a `group` IS a false header
 (it would be reported as a function although the tree says it is none).
+
+## what is definitional in this fragment, and what it silently leaves out
+
+"Reports nothing that is not a function definition" is, on trees, relative to the tree's own
+labelling: the fragment DEMANDS that every `Name ( … )+` directly in front of a brace group (Java:
+or `throws … {`; TypeScript: or `: … {`) is labelled as a `fn` node - that is the false-header
+clause.  Whether such a token run "is" a function definition of the language is not expressible on
+token trees; the independent content of the clause is that nothing ELSE is reported (control
+statements start with a Keyword, calls end in front of `;` / `)` / an operator, classes and
+initialisers have no parenthesis group).  Real programs outside the fragment (witnesses in
+`Props/C01full.lean`, all reproduce on the real code):
+
+* C++ member functions with a qualifier between `)` and `{`: `int f ( ) const { … }`, `noexcept`,
+  `override`, a trailing return type - the gap must be empty (`gapOK = isEmpty`); the code does NOT
+  report them at all (`C01full.c_gap_clause_needed`);
+* C++ constructors with a member initialiser list, `A ( ) : b ( 1 ) { … }`: the code reports the
+  unit `b`, not `A` (`C01full.cpp_ctor_initializer_reports_member`);
+* function-like macros `FOO ( x ) { … }` are reported as functions (they have the header shape);
+* headers with a call-shaped group in the parameter list (KF1), TypeScript conditional expressions
+  `c ? f ( x ) : { … }` (KF3), assigned arrow functions with a parenthesised default value.
 -/
 namespace CL
 open CL.Syn (isOpen isClose)
@@ -128,7 +148,9 @@ structure CanonCfg where
 
 /-- the siblings `rest` follow a Name token: they start with `(`, and what remains after the run of
 parenthesis groups that starts there looks like the start of a function body (so Name token +
-groups look like a function header) -/
+groups look like a function header).  The fragment forbids this for Name tokens that are not the
+name of a `fn` node: such a token run must BE a function node (see the module doc: this part of
+"reports nothing that is not a function definition" is a demand on the labelling of the tree). -/
 def Prog.falseHeaderAfter (C : CanonCfg) : Prog Tok → Bool
   | .leaf o rest => isOpen o && C.follows (rest.afterRun 1)
   | _ => false
